@@ -311,10 +311,6 @@ Definition flat_desc (d : adesc) : bool :=
 (* the member ids the XCDR2 parameter search can tell apart (it compares `as u16`) *)
 Definition ids_u16 (d : adesc) : bool := forallb (fun k => k <? 65536) (aids (ad_members d)).
 
-(* XCDR1: the float128 alignment of the reader differs from the writer's (C09-float128-xcdr1-align) *)
-Definition codec_ok (V : ver) (d : adesc) : bool :=
-  forallb (fun m => match V, am_ty m with V1, APrim PF128 => false | _, _ => true end) (ad_members d).
-
 (* XTypes default value of a member type (zero / empty string) *)
 Definition default_val (t : ty) : option val :=
   match t with
